@@ -602,6 +602,15 @@ def cond_cases():
         out.append(['movl $0x12345678, %edx', cmp_, 'set%s %%dh' % cc, 'movl %edx, (%esi)', 'movzbl 1(%esi), %edi'])
         out.append([cmp_, 'set%s %%cl' % cc, 'movzbl %cl, %ecx', 'leal 4(%ecx,%ecx,2), %edx'])
         out.append([cmp_, 'set%s 2(%%esi)' % cc, 'movl (%esi), %edx'])
+    # a constant shifted / rotated by a symbolic count (the 1 << n idiom), then narrowed, tested, or stored and partly overwritten
+    for K in (1, 0x80000001, 0x00ff00ff):
+        for op in ('shll', 'shrl', 'sarl', 'roll', 'rorl'):
+            pre = ['movl $%d, %%eax' % K, '%s %%cl, %%eax' % op]
+            out.append(pre + ['movzbl %al, %edx'])
+            out.append(pre + ['movb %ah, %dl'])
+            out.append(pre + ['testb %al, %al', 'sete %dl'])
+            out.append(pre + ['movl %eax, (%esi)', 'movb %bl, 1(%esi)', 'movl (%esi), %edx'])
+            out.append(pre + ['movw %ax, %dx', 'addl %eax, %edx'])
     out.append(['movsbl %al, %edx', 'movb %dh, %cl'])
     out.append(['movsbl %al, %edx', 'movzbl %dh, %ecx', 'movw %dx, 2(%esi)', 'movl (%esi), %edi'])
     out.append(['movswl %ax, %edx', 'movl %edx, (%esi)', 'movb 3(%esi), %cl'])
